@@ -2,8 +2,12 @@
 //!
 //! Every subcommand enumerates a bounded space completely and evaluates the *real* code on each case. Oracles that need
 //! CPython live on the Python side (pspace/); oracles that are naive counting live next to the enumeration.
+mod frontend;
 mod kernels;
+mod layout;
 mod positions;
+mod totality;
+mod typing;
 mod util;
 
 fn main() {
@@ -20,6 +24,9 @@ fn main() {
         "seq-one" => kernels::run_seq_one(rest),
         "pos" => positions::run_pos(rest),
         "pos-one" => positions::run_pos_one(rest),
+        "serve" => frontend::run_serve(rest),
+        "total" => totality::run_total(rest),
+        "layout" => layout::run_layout(rest),
         other => {
             eprintln!("unknown subcommand {other}");
             std::process::exit(2);
